@@ -30,6 +30,8 @@ pub struct Ctx {
     pub soft: Vec<String>,
     pub uncontracted: Vec<String>,
     pub consts_done: BTreeSet<String>,
+    pub params: BTreeMap<String, Vec<String>>,   // pinned parameter names (contracts/PARAMS.json): a renamed parameter is renamed back (rule P4)
+    pub dump_params: BTreeMap<String, Vec<String>>,
     pub cur_fn: String,
     pub dropbody: BTreeSet<String>,
     pub dropped: Vec<String>,
@@ -470,6 +472,25 @@ fn emit_fn(cx: &mut Ctx, specs: &mut Specs, em: &mut Emitter, ex: &Extract, file
         tr_generics = Some(g);
     }
     let src_line = f.sig.ident.span().start().line;
+    // P4: parameters are matched to the pinned names by position: a renamed parameter is renamed back, so that contracts (which have to
+    // name parameters) stay attached
+    {
+        let key = format!("{}::{}{}", ex.file, ex.path, ex.opt("nth").map(|n| format!("#{}", n)).unwrap_or_default());
+        let names: Vec<Option<String>> = f.sig.inputs.iter().filter_map(|a| if let syn::FnArg::Typed(pt) = a { Some(if let syn::Pat::Ident(pi) = &*pt.pat { Some(pi.ident.to_string()) } else { None }) } else { None }).collect();
+        cx.dump_params.insert(key.clone(), names.iter().map(|n| n.clone().unwrap_or_else(|| "_".to_string())).collect());
+        if let Some(pinned) = cx.params.get(&key).cloned() { if pinned.len() == names.len() {
+            let mut pairs: Vec<(String, String)> = vec![];
+            for (have, want) in names.iter().zip(pinned.iter()) { if let Some(h) = have { if h != want && want != "_" { pairs.push((h.clone(), want.clone())); } } }
+            // only if the new names do not collide with anything else in the function
+            let body_txt = f.block.to_token_stream().to_string();
+            let collide = pairs.iter().any(|(_, w)| { let re = format!(" {} ", w); body_txt.contains(&re) || names.iter().any(|n| n.as_deref() == Some(w.as_str())) });
+            if !pairs.is_empty() && !collide {
+                let mut sig_ts = f.sig.to_token_stream(); let mut blk_ts = f.block.to_token_stream();
+                for (h, w) in &pairs { sig_ts = rename_ident(sig_ts, h, w); blk_ts = rename_ident(blk_ts, h, w); }
+                if let (Ok(sg), Ok(bl)) = (syn::parse2::<syn::Signature>(sig_ts), syn::parse2::<syn::Block>(blk_ts)) { f.sig = sg; f.block = bl; cx.fire("P4"); }
+            }
+        } }
+    }
 
     // A3: lift the k-th async block
     let mut captured: Vec<(String, syn::Type)> = vec![];
@@ -650,14 +671,33 @@ fn emit_fn(cx: &mut Ctx, specs: &mut Specs, em: &mut Emitter, ex: &Extract, file
     let fn_start = em.line();
     em.raw(&format!("{}{}fn {}{}({}){}{}", indent, vis, fn_ident, gtxt, params.join(", "), ret, wtxt));
     match specs.get(&format!("fn {}", name)) { Some(s) => em.raw_block(&s, ""), None => { if is_stub { cx.err(format!("lost anchor: stub `{}` has no contract section", name)); } } }
-    let proof_entry = entry_text(cx, specs.get(&format!("proof {} entry", name)));
+    // `$B<k>`: the k-th binder of the ORIGINAL body in source order (before any rewriting renames nothing, so the names are the code's)
+    let obinders = rewrite::ordered_binders(&f.block);
+    // `$B<k>~<name>`: the binder called <name> if the body has one, otherwise the k-th binder (a rename); `$B<k>` alone: the k-th binder
+    let bsub = |t: String| -> String {
+        let mut out = String::new(); let b = t.as_bytes(); let mut i = 0;
+        while i < b.len() {
+            if b[i] == b'$' && i + 2 < b.len() && b[i + 1] == b'B' && b[i + 2].is_ascii_digit() {
+                let mut j = i + 2; while j < b.len() && b[j].is_ascii_digit() { j += 1; }
+                let k: usize = t[i + 2..j].parse().unwrap_or(usize::MAX);
+                let mut name: Option<String> = None;
+                if j < b.len() && b[j] == b'~' { let mut e = j + 1; while e < b.len() && (b[e].is_ascii_alphanumeric() || b[e] == b'_') { e += 1; } name = Some(t[j + 1..e].to_string()); j = e; }
+                let pick = match &name { Some(n) if obinders.contains(n) => Some(n.clone()), _ => obinders.get(k).cloned() };
+                match pick { Some(n) => out.push_str(&n), None => out.push_str(&t[i..j]) }
+                i = j;
+            } else { out.push(b[i] as char); i += 1; }
+        }
+        out
+    };
+    let proof_entry = entry_text(cx, specs.get(&format!("proof {} entry", name)).map(|t| bsub(t)));
     let mut loopspecs: BTreeMap<usize, (String, Option<String>, Option<String>)> = BTreeMap::new();
     // G5: an immutable local initialised from a place (`let timeout = self.config.timeout;`) before a loop keeps that value inside it;
     // Verus forgets such facts at loop heads, so they are added to the invariants of the function's loops (only if nothing under the
     // same root is ever assigned in the function)
     let frame_facts = rewrite::immutable_place_lets(&block);
     for k in 0..nloops {
-        let mut inv = specs.get(&format!("loop {} {}", name, k)).unwrap_or_default();
+        let mut inv = bsub(specs.get(&format!("loop {} {}", name, k)).unwrap_or_default());
+        if inv.contains("$B") { cx.soft.push(format!("lost anchor: loop {} of `{}` names a binder (`$B..`) the body no longer has", k, name)); }
         if inv.trim().is_empty() && !is_stub && !is_decl && !drop_this { cx.soft.push(format!("lost anchor: loop {} of `{}` has no loop contract (a loop was added to the code); what the verifier says about this function is not a verdict", k, name)); cx.uncontracted.push(name.clone()); }
         if !frame_facts.is_empty() && !inv.trim().is_empty() {
             let mut lines: Vec<String> = inv.lines().map(|l| l.to_string()).collect();
@@ -667,7 +707,7 @@ fn emit_fn(cx: &mut Ctx, specs: &mut Specs, em: &mut Emitter, ex: &Extract, file
                 inv = lines.join("\n"); cx.fire("G5");
             }
         }
-        loopspecs.insert(k, (inv, entry_text(cx, specs.get(&format!("proof {} loop {} start", name, k))), specs.get(&format!("proof {} loop {} end", name, k))));
+        loopspecs.insert(k, (inv, entry_text(cx, specs.get(&format!("proof {} loop {} start", name, k)).map(|t| bsub(t))), specs.get(&format!("proof {} loop {} end", name, k)).map(|t| bsub(t))));
     }
     if is_decl { em.raw(&format!("{};", indent)); }
     else if is_stub || drop_this { em.raw(&format!("{}{{ unimplemented!() }}", indent)); } else { em.body(&block, if in_impl || in_trait.is_some() { 1 } else { 0 }, &ex.file, proof_entry.as_deref(), &loopspecs); }
@@ -1226,7 +1266,7 @@ fn rename_ident(ts: TokenStream, from: &str, to: &str) -> TokenStream {
 
 fn main() {
     let args: Vec<String> = std::env::args().collect();
-    let mut unit_path = None; let mut repo = PathBuf::from("/repo"); let mut out = None; let mut map = None; let mut probe = false; let mut root = PathBuf::from("."); let mut dropbody: BTreeSet<String> = BTreeSet::new();
+    let mut unit_path = None; let mut repo = PathBuf::from("/repo"); let mut out = None; let mut map = None; let mut probe = false; let mut root = PathBuf::from("."); let mut dropbody: BTreeSet<String> = BTreeSet::new(); let mut params: BTreeMap<String, Vec<String>> = BTreeMap::new(); let mut dump_params_to: Option<PathBuf> = None;
     let mut i = 1;
     while i < args.len() {
         match args[i].as_str() {
@@ -1236,6 +1276,9 @@ fn main() {
             "--map" => { map = Some(PathBuf::from(&args[i + 1])); i += 1; }
             "--root" => { root = PathBuf::from(&args[i + 1]); i += 1; }
             "--probe" => probe = true,
+            "--params" => { i += 1; if let Ok(t) = std::fs::read_to_string(&args[i]) { // a flat JSON object {"key": ["a", "b"], ..} written by --dump-params
+                    for line in t.lines() { let line = line.trim().trim_end_matches(','); if let Some((k, v)) = line.split_once("\": [") { let k = k.trim().trim_start_matches('"').to_string(); let v: Vec<String> = v.trim_end_matches(']').split(',').map(|x| x.trim().trim_matches('"').to_string()).filter(|x| !x.is_empty()).collect(); params.insert(k, v); } } } }
+            "--dump-params" => { i += 1; dump_params_to = Some(PathBuf::from(&args[i])); }
             "--dropbody" => { i += 1; for n in args[i].split(',') { if !n.trim().is_empty() { dropbody.insert(n.trim().to_string()); } } }
             other => { eprintln!("hx: unknown argument {}", other); std::process::exit(2); }
         }
@@ -1243,7 +1286,7 @@ fn main() {
     }
     let unit_path = unit_path.expect("--unit");
     let unit = match Unit::load(&unit_path) { Ok(u) => u, Err(e) => { eprintln!("hx: {}", e); std::process::exit(2); } };
-    let mut cx = Ctx { unit, repo, probe, rules: BTreeMap::new(), errors: vec![], soft: vec![], uncontracted: vec![], consts_done: BTreeSet::new(), cur_fn: String::new(), dropbody: dropbody.clone(), dropped: vec![], dropped_notes: vec![], files: BTreeMap::new(), file_ranges: BTreeMap::new(), local_mods: BTreeSet::new(), pending: vec![] };
+    let mut cx = Ctx { unit, repo, probe, rules: BTreeMap::new(), errors: vec![], soft: vec![], uncontracted: vec![], consts_done: BTreeSet::new(), params: params.clone(), dump_params: BTreeMap::new(), cur_fn: String::new(), dropbody: dropbody.clone(), dropped: vec![], dropped_notes: vec![], files: BTreeMap::new(), file_ranges: BTreeMap::new(), local_mods: BTreeSet::new(), pending: vec![] };
     let mut specs = Specs::default();
     specs.defines = cx.unit.defines.clone();
     for s in cx.unit.specs.clone() { if let Err(e) = specs.load(&root.join(&s)) { eprintln!("hx: {}", e); std::process::exit(2); } }
@@ -1280,6 +1323,13 @@ fn main() {
     for k in specs.sections.keys() { if !specs.used.contains(k) && !specs.exempt.contains(k) { cx.soft.push(format!("lost anchor: spec section `@{}` matches no extracted item", k)); } }
     if let Some(o) = &out { std::fs::write(o, em.text()).expect("write out"); } else { print!("{}", em.text()); }
     if let Some(m) = &map { std::fs::write(m, em.map_json(&cx)).expect("write map"); }
+    if let Some(pth) = &dump_params_to {
+        let mut all: BTreeMap<String, Vec<String>> = BTreeMap::new();
+        if let Ok(t) = std::fs::read_to_string(pth) { for line in t.lines() { let line = line.trim().trim_end_matches(','); if let Some((k, v)) = line.split_once("\": [") { let k = k.trim().trim_start_matches('"').to_string(); let v: Vec<String> = v.trim_end_matches(']').split(',').map(|x| x.trim().trim_matches('"').to_string()).filter(|x| !x.is_empty()).collect(); all.insert(k, v); } } }
+        for (k, v) in &cx.dump_params { all.insert(k.clone(), v.clone()); }
+        let body: Vec<String> = all.iter().map(|(k, v)| format!(" \"{}\": [{}]", k, v.iter().map(|x| format!("\"{}\"", x)).collect::<Vec<_>>().join(", "))).collect();
+        std::fs::write(pth, format!("{{\n{}\n}}\n", body.join(",\n"))).expect("write params");
+    }
     for n in &cx.dropped_notes { eprintln!("hx: note: dropped body: {}", n); }
     if !cx.errors.is_empty() { for e in &cx.errors { eprintln!("hx: {}", e); } std::process::exit(2); }
     if !cx.soft.is_empty() { for e in &cx.soft { eprintln!("hx: {}", e); } std::process::exit(3); }
